@@ -1213,6 +1213,43 @@ func (fr *Frame) streamEqObligations(st *State, a, b Val, pos token.Pos) {
 	bound := vc.writeCount[fieldKey(S, "tk")]
 	vc.oblige("assert", top.oblFn, fr.oblName("stream-eq-len"), fr.curCond, "(= "+n1+" "+n2+")", fr.pos(pos), "re-encoded stream has the same number of tokens")
 	vc.oblige("assert", top.oblFn, fr.oblName("stream-eq-bound"), fr.curCond, "(<= "+n1+" "+fmt.Sprint(bound)+")", fr.pos(pos), "token count within the static bound used for the position-wise comparison")
+	// nested streams (a DataOutputX written as a blob into another one): one SMT function, defined once per comparison,
+	// says that the streams denoted by two byte arrays agree token by token (one level of nesting; at most 48 tokens)
+	nestedFn := ""
+	if _, hasS := vc.heapSorts["G:ghost.io.S_n"]; hasS {
+		nb := bound
+		if nb > 48 {
+			nb = 48
+		}
+		sarr := "(Array " + isrt + " Str)"
+		rarr := "(Array " + isrt + " Int)"
+		sget := func(name, elemSort, r string) string {
+			h := vc.hget(st, "G:ghost.io."+name, "(Array Int "+elemSort+")")
+			return "(select " + h + " " + r + ")"
+		}
+		na, nb2 := sget("S_n", isrt, "ra"), sget("S_n", isrt, "rb")
+		nested := []string{"(not (= ra 0))", "(not (= rb 0))", "(= " + na + " " + nb2 + ")", "(<= " + na + " " + fmt.Sprint(nb) + ")"}
+		for j := 0; j < nb; j++ {
+			js := vc.idx(int64(j))
+			var teq []string
+			for _, f := range []string{"S_k", "S_i"} {
+				arr := "(Array " + isrt + " " + isrt + ")"
+				teq = append(teq, "(= (select "+sget(f, arr, "ra")+" "+js+") (select "+sget(f, arr, "rb")+" "+js+"))")
+			}
+			nsa, nsb := "(select "+sget("S_s", sarr, "ra")+" "+js+")", "(select "+sget("S_s", sarr, "rb")+" "+js+")"
+			teq = append(teq, "(or (= "+nsa+" "+nsb+") "+vc.strEqExt(nsa, nsb)+")")
+			if sf := vc.prog.specFnIn("valeq", "value"); sf != nil {
+				ve := vc.declareSpecFn(sf)
+				nra, nrb := "(select "+sget("S_r", rarr, "ra")+" "+js+")", "(select "+sget("S_r", rarr, "rb")+" "+js+")"
+				nka := "(select " + sget("S_k", "(Array "+isrt+" "+isrt+")", "ra") + " " + js + ")"
+				teq = append(teq, "(=> (= "+nka+" "+vc.idx(40)+") (or (= "+nra+" "+nrb+") ("+ve+" "+nra+" "+nrb+")))")
+			}
+			nested = append(nested, "(=> "+vc.ilt(js, na)+" "+andAll(teq...)+")")
+		}
+		vc.nfresh++
+		nestedFn = fmt.Sprintf("nestedEq!%d", vc.nfresh)
+		vc.declare(nestedFn, "(define-fun "+nestedFn+" ((ra Int) (rb Int)) Bool "+andAll(nested...)+")")
+	}
 	for k := 0; k < bound; k++ {
 		ks := vc.idx(int64(k))
 		var eqs []string
@@ -1234,33 +1271,10 @@ func (fr *Frame) streamEqObligations(st *State, a, b Val, pos token.Pos) {
 		payloadEq := "(or (= " + sa + " " + sb + ") " + vc.strEqExt(sa, sb) + ")"
 		// a byte payload that is itself a token stream (nested DataOutputX written as a blob): the two nested streams
 		// agree token by token (one level of nesting, same static bound)
-		if _, hasS := vc.heapSorts["G:ghost.io.S_n"]; hasS {
+		if nestedFn != "" {
 			rarr := "(Array " + isrt + " Int)"
 			ra, rb := "(select "+get(a, "tr", rarr)+" "+ks+")", "(select "+get(b, "tr", rarr)+" "+ks+")"
-			sget := func(name, elemSort, r string) string {
-				h := vc.hget(st, "G:ghost.io."+name, "(Array Int "+elemSort+")")
-				return "(select " + h + " " + r + ")"
-			}
-			na, nb := sget("S_n", isrt, ra), sget("S_n", isrt, rb)
-			nested := []string{"(not (= " + ra + " 0))", "(not (= " + rb + " 0))", "(= " + na + " " + nb + ")", "(<= " + na + " " + fmt.Sprint(bound) + ")"}
-			for j := 0; j < bound; j++ {
-				js := vc.idx(int64(j))
-				var teq []string
-				for _, f := range []string{"S_k", "S_i"} {
-					arr := "(Array " + isrt + " " + isrt + ")"
-					teq = append(teq, "(= (select "+sget(f, arr, ra)+" "+js+") (select "+sget(f, arr, rb)+" "+js+"))")
-				}
-				nsa, nsb := "(select "+sget("S_s", sarr, ra)+" "+js+")", "(select "+sget("S_s", sarr, rb)+" "+js+")"
-				teq = append(teq, "(or (= "+nsa+" "+nsb+") "+vc.strEqExt(nsa, nsb)+")")
-				if sf := vc.prog.specFnIn("valeq", "value"); sf != nil {
-					ve := vc.declareSpecFn(sf)
-					nra, nrb := "(select "+sget("S_r", rarr, ra)+" "+js+")", "(select "+sget("S_r", rarr, rb)+" "+js+")"
-					nka := "(select " + sget("S_k", "(Array "+isrt+" "+isrt+")", ra) + " " + js + ")"
-					teq = append(teq, "(=> (= "+nka+" "+vc.idx(40)+") (or (= "+nra+" "+nrb+") ("+ve+" "+nra+" "+nrb+")))")
-				}
-				nested = append(nested, "(=> "+vc.ilt(js, na)+" "+andAll(teq...)+")")
-			}
-			payloadEq = "(or " + payloadEq + " " + andAll(nested...) + ")"
+			payloadEq = "(or " + payloadEq + " (" + nestedFn + " " + ra + " " + rb + "))"
 		}
 		eqs = append(eqs, payloadEq)
 		vc.oblige("assert", top.oblFn, fr.oblName("stream-eq-tok"), fr.curCond, "(=> "+vc.ilt(ks, n1)+" "+andAll(eqs...)+")", fr.pos(pos), fmt.Sprintf("re-encoded stream agrees at token %d", k))
